@@ -120,7 +120,7 @@ type pathState struct {
 	harness                  string
 	curPos                   func() string
 	writes                   []string
-	resets  []string // atomic stores / swaps on package-level state while tracking
+	resets                   []string // atomic stores / swaps on package-level state while tracking
 	trackW                   bool
 	gcells                   map[*value]bool
 	gmaps                    map[*omap]bool
@@ -884,6 +884,8 @@ func (e *Engine) runPath(solver *smt.Solver, fn *ssa.Function, prefix []int, cac
 				status, msg = "unsupported", p.msg+" at "+ps.curPos()
 			case exitPanic:
 				status, msg = "ok", "exit"
+			case fatalError:
+				ps.violation("PANIC:fatal error: stack overflow", p.msg, nil)
 			case targetPanic:
 				ps.violation("PANIC:"+panicClass(toStringDeep(p.v)), "panic escaped the harness: "+toStringDeep(p.v), nil)
 			case runtime.Error:
